@@ -7,11 +7,13 @@ d = os.path.abspath(sys.argv[1]); tier = sys.argv[sys.argv.index("--tier") + 1] 
 meta = json.load(open(os.path.join(d, "meta.json")))
 prop = sys.argv[sys.argv.index("--prop") + 1] if "--prop" in sys.argv else meta["property"]
 assert subprocess.run(["git", "-C", "/repo", "status", "--porcelain", "--untracked-files=no"], stdout=subprocess.PIPE, text=True).stdout.strip() == "", "/repo has local edits"
+ev = os.path.join(ROOT, "evidence", prop + ".json"); saved = open(ev).read() if os.path.exists(ev) else None   # evidence must describe the unchanged tree
 subprocess.run(["git", "-C", "/repo", "apply", os.path.join(d, "patch.diff")], check=True)
 try:
     r = subprocess.run([sys.executable, os.path.join(ROOT, "verif.py"), "check", prop, "--tier", tier], stdout=subprocess.PIPE, stderr=subprocess.PIPE, text=True)
 finally:
     subprocess.run(["git", "-C", "/repo", "checkout", "--", "."], check=True)
+    if saved is not None: open(ev, "w").write(saved)
 fps = [l.strip()[len("fingerprint: "):] for l in r.stdout.splitlines() if l.strip().startswith("fingerprint:")]
 print("%s %s %s exit=%d violations=%d %s" % ("CAUGHT" if r.returncode == 1 else ("MISSED" if r.returncode == 0 else "MACHINERY-ERROR"), os.path.basename(d), prop, r.returncode, len(fps), sorted(set(fps))[:4]))
 print(r.stderr.strip().splitlines()[-1] if r.stderr.strip() else "")
